@@ -59,7 +59,9 @@ func NewFontGen() (*FontGen, error) {
 
 	a, b := cmap.CodeRange()
 	rev := make(map[glyph.ID]rune)
-	for r := a; r <= b; r++ {
+	// int64 loop variable: with b == math.MaxInt32 r++ would wrap around
+	for c := int64(a); c <= int64(b); c++ {
+		r := rune(c)
 		gid := cmap.Lookup(r)
 		if gid != 0 {
 			rev[gid] = r
